@@ -18,10 +18,21 @@ class TokenStream:
 
     eof = Token(TOKEN_EOF, TOKEN_EOF, -1, "")
 
-    def __init__(self, tokens: Iterator[Token], block_depth_carry: int = 0):
+    def __init__(
+        self,
+        tokens: Iterator[Token],
+        block_depth_carry: int = 0,
+        parent_token: Optional[Token] = None,
+    ):
         self.tokens = list(tokens)
         self.pos = 0
         self.block_depth = block_depth_carry
+
+        # Give errors raised at the end of the stream a position in the source: that
+        # of the last token, or of the token this stream was made from if it is empty.
+        last = self.tokens[-1] if self.tokens else parent_token
+        if last is not None:
+            self.eof = Token(TOKEN_EOF, TOKEN_EOF, last.start_index, last.source)
 
     def __next__(self) -> Token:
         return self.next_token()
@@ -132,7 +143,9 @@ class TokenStream:
 
         if eat:
             next(self)
-        return TokenStream(tokenize(token.value, parent_token=token))
+        return TokenStream(
+            tokenize(token.value, parent_token=token), parent_token=token
+        )
 
     def expect_eos(self) -> None:
         """Raise a syntax error if we're not at the end of the stream."""
